@@ -11,6 +11,7 @@ import (
 	"context"
 	"errors"
 	"fmt"
+	"strings"
 	"testing"
 	"time"
 
@@ -43,8 +44,50 @@ func (s *c01Spy) DoWithAcceptable(req func() error, acc breaker.Acceptable) erro
 	})
 }
 
+var c01PipeCalls int
+
+// c01Pipeline sends one pipeline (alternating Pipelined / PipelinedCtx) with one
+// command per key; variant picks the command mix.
+func c01Pipeline(r *Redis, variant int, keys ...string) error {
+	ctx := context.Background()
+	body := func(p Pipeliner) error {
+		for i, k := range keys {
+			switch {
+			case variant == 1 && i%4 == 1:
+				p.HGet(ctx, k, "f")
+			case variant == 1 && i%4 == 2:
+				p.LPop(ctx, k)
+			case variant == 1 && i%4 == 3:
+				p.ZScore(ctx, k, "m")
+			default:
+				p.Get(ctx, k)
+			}
+		}
+		return nil
+	}
+	c01PipeCalls++
+	if c01PipeCalls%2 == 0 {
+		return r.Pipelined(body)
+	}
+	return r.PipelinedCtx(ctx, body)
+}
+
+// c01OnlyNil: the outcome consists of nothing but redis.Nil replies (whatever the
+// carrier: the value itself or a batch whose every line is redis.Nil's text), or no error.
+func c01OnlyNil(err error) bool {
+	if err == nil || err == red.Nil {
+		return true
+	}
+	for _, line := range strings.Split(err.Error(), "\n") {
+		if line != red.Nil.Error() {
+			return false
+		}
+	}
+	return true
+}
+
 func TestVerifC01RedisBenignTable(t *testing.T) {
-	m := vk.New(t, "C01", "redis.Redis (New(addr) against miniredis, real breaker behind a transparent spy, virtual clock frozen): predicate table {nil, redis.Nil, context.Canceled => true; ERR reply, context.DeadlineExceeded, io error => false}; rows on a fresh Redis each: Set/Get hit (nil), Get/Hget miss (redis.Nil), GetCtx with cancelled context (context.Canceled) x150 => the command path always runs; ERR replies / expired context x400 => at least one call short-circuited with ErrServiceUnavailable; 10000 mixed benign calls => 0 rejections; non-trivial = row completed (benign) / rejected (failing)")
+	m := vk.New(t, "C01", "redis.Redis (New(addr) against miniredis, real breaker behind a transparent spy, virtual clock frozen): predicate table {nil, redis.Nil, context.Canceled => true; ERR reply, context.DeadlineExceeded, io error => false}; rows on a fresh Redis each: Set/Get hit (nil), Get/Hget miss (redis.Nil), GetCtx with cancelled context (context.Canceled), Pipelined/PipelinedCtx with 1, 2, 5 misses and hits+misses (only redis.Nil replies) x150 => the command path always runs; ERR replies (single commands and pipelines) / expired context x400 => at least one call short-circuited with ErrServiceUnavailable; 10000 mixed benign calls => 0 rejections; non-trivial = row completed (benign) / rejected (failing)")
 	defer m.Done()
 	logx.Disable()
 	stat.SetReporter(nil)
@@ -117,8 +160,14 @@ func TestVerifC01RedisBenignTable(t *testing.T) {
 		{"get-miss:nil-or-redis.Nil", true, func(err error) bool { return err == nil || err == red.Nil }, func(e *env) error { _, err := e.r.Get("absent"); return err }},
 		{"hget-miss:redis.Nil", true, func(err error) bool { return err == red.Nil }, func(e *env) error { _, err := e.r.HGet("absent", "f"); return err }},
 		{"lpop-empty:redis.Nil", true, func(err error) bool { return err == red.Nil }, func(e *env) error { _, err := e.r.LPop("absent"); return err }},
+		// pipelines on a healthy server whose commands only miss (and hit): every reply is redis.Nil or a value
+		{"pipeline-1-miss:redis.Nil", true, c01OnlyNil, func(e *env) error { return c01Pipeline(e.r, 0, "absent1") }},
+		{"pipeline-2-misses:redis.Nil", true, c01OnlyNil, func(e *env) error { return c01Pipeline(e.r, 0, "absent1", "absent2") }},
+		{"pipeline-5-misses-mixed-commands:redis.Nil", true, c01OnlyNil, func(e *env) error { return c01Pipeline(e.r, 1, "absent1", "absent2", "absent3", "absent4", "absent5") }},
+		{"pipeline-hits-and-3-misses:redis.Nil", true, c01OnlyNil, func(e *env) error { return c01Pipeline(e.r, 2, "present", "absent1", "absent2", "present", "absent3") }},
 		{"cancelled-context:context.Canceled", true, func(err error) bool { return err == context.Canceled }, func(e *env) error { _, err := e.r.GetCtx(cancelled, "present"); return err }},
 		{"ERR-reply", false, func(err error) bool { return err != nil }, func(e *env) error { _, err := e.r.Get("present"); return err }},
+		{"pipeline-ERR-replies", false, func(err error) bool { return err != nil }, func(e *env) error { return c01Pipeline(e.r, 0, "present", "absent1") }},
 		{"wrong-type-reply", false, func(err error) bool { return err != nil }, func(e *env) error { _, err := e.r.HGet("present", "f"); return err }},
 		{"expired-context:context.DeadlineExceeded", false, func(err error) bool { return err == context.DeadlineExceeded }, func(e *env) error { _, err := e.r.GetCtx(expired, "present"); return err }},
 	}
@@ -128,7 +177,7 @@ func TestVerifC01RedisBenignTable(t *testing.T) {
 		if e == nil {
 			return
 		}
-		if o.name == "ERR-reply" {
+		if o.name == "ERR-reply" || o.name == "pipeline-ERR-replies" {
 			e.s.SetError("ERR c01 injected")
 		}
 		desc := fmt.Sprintf("case=%d;%s on a fresh Redis", idx+1, o.name)
